@@ -303,6 +303,13 @@ def build_cases(ctx, H, lvl, tag, ncurves, nscal):
             P2, Q2 = cofP(P), cofP(Q)
             D2 = E.sub(P2, Q2)
             if P2 is not None and Q2 is not None and D2 is not None and D2[0] != (0, 0) and P2[0] != (0, 0) and Q2[0] != (0, 0):
+                for zk, zl in ((0, 1), (1, 0), (0, 0)):
+                    k, l = (0 if zk else rng.bits(f) | 1), (0 if zl else rng.bits(f) | 1)
+                    add("ec_biscalar_mul_bounded", "ec.biscalarb %x %s %s %s %s %x %x %x" % (lvl, hp(G.proj(P2)), hp(G.proj(Q2)), hp(G.proj(D2)), hp(AC), k, l, f),
+                        xcheck(E, E.add(E.mul(k, P2), E.mul(l, Q2))), dict(info0, k="%x" % k, l="%x" % l, f=f))
+                k, l = rng.bits(f), rng.bits(f)
+                add("ec_biscalar_mul_bounded", "ec.biscalarb %x %s %s %s %s %x %x %x" % (lvl, hp(G.proj(P2)), hp(G.proj(Q2)), hp(G.proj(D2)), hp(AC), k, l, f),
+                    xcheck(E, E.add(E.mul(k, P2), E.mul(l, Q2))), dict(info0, k="%x" % k, l="%x" % l, f=f))
                 for _ in range(2):
                     k, l = rng.bits(f) | 1, rng.bits(f)
                     add("xDBLMUL_bounded", "ec.dblmulb %x %s %s %s %s %x %x %x" % (lvl, hp(G.proj(P2)), hp(G.proj(Q2)), hp(G.proj(D2)), hp(AC), k, l, f),
